@@ -28,9 +28,9 @@ CLAUSES = {
 # (cfg, workers, what it is)
 QUICK_EXH = {
     "C06": [("Exh_PP_reader", 3), ("Exh_PL_reader", 3), ("Exh_PA_reader", 2), ("Exh_L2_reader", 2), ("Exh_2x2_core", 4)],
-    "C07": [("Exh_2x2_core", 3), ("Exh_PLA", 8), ("Exh_PP_reader", 2), ("Exh_PA_reader", 2), ("Exh_L2_reader", 1)],
+    "C07": [("Exh_2x2_core", 4), ("Exh_PP_reader", 3), ("Exh_PA_reader", 2), ("Exh_L2_reader", 2), ("Exh_PL_reader", 3)],
 }
-THOR_EXH = [("Thor_2x2_reader", 6), ("Thor_PLA_reader", 6), ("Thor_PPP", 4), ("Thor_PL2_reader", 6)]
+THOR_EXH = [("Exh_PLA", 8), ("Thor_2x2_reader", 6), ("Thor_PLA_reader", 6), ("Thor_PPP", 4), ("Thor_PL2_reader", 6)]
 BUGS = {
     "C06": {"Bug_PublishEarly": ["PublishedImpliesApplied", "ReadAtomic"],
             "Bug_DequeueUnapplied": ["PublishedImpliesApplied", "ReadAtomic"],
@@ -74,7 +74,7 @@ def design(run, exh, bugs, extra=()):
     jobs += [("bug", c, 2, e, dict(timeout=600, heap="2g")) for c, e in bugs.items()]
     jobs += list(extra)
     t0 = time.time()
-    with ThreadPoolExecutor(max_workers=6 if run.tier == "quick" else 4) as ex:
+    with ThreadPoolExecutor(max_workers=5 if run.tier == "quick" else 3) as ex:
         results = list(ex.map(_tlc_job, jobs))
     caught = {}
     other = {}
